@@ -1,5 +1,5 @@
 CONSTANTS
-  MaxT = 5
+  MaxT = 7
   Cap = 2
   AsIs = {}
   Scenarios <- MCScen
